@@ -183,7 +183,8 @@ pub enum Case {
     /// expression x tag (0 none, 1 !degrees, 2 !radians) x blanks x style (plain / double quoted) x target f64|f32
     Expr { ast: Ast, tag: u8, sp: bool, quoted: bool, f32_target: bool },
     /// a literal with the option on vs off
-    Literal { text: String, f32_target: bool },
+    /// (with `radians`: the literal carries the `!radians` tag when the option is on - radians stay as they are)
+    Literal { text: String, f32_target: bool, #[serde(default)] radians: bool },
     /// sexagesimal d:m[:s[.frac]] with sign and tag
     Sexa { neg: bool, d: u32, m: u32, s: Option<(u32, Option<u32>)>, tag: u8 },
     /// a sexagesimal literal inside a unit function next to another term: `f(A + S)` and `f(S + A)` must agree
@@ -248,17 +249,19 @@ impl Prop for C19 {
                     }
                 }
             }
-            Case::Literal { text, f32_target } => {
+            Case::Literal { text, f32_target, radians } => {
                 let doc = format!("{}\n", text);
+                let doc_on = if *radians { format!("!radians {}\n", text) } else { doc.clone() };
                 v.execs = 2;
                 v.compared = 1;
                 v.nontrivial = true;
                 let what = format!("{:?} requested as {}", doc, if *f32_target { "f32" } else { "f64" });
                 let (off, on) = if *f32_target {
-                    (de_f32(&doc, false).map(|r| r.map(|x| x as f64)), de_f32(&doc, true).map(|r| r.map(|x| x as f64)))
+                    (de_f32(&doc, false).map(|r| r.map(|x| x as f64)), de_f32(&doc_on, true).map(|r| r.map(|x| x as f64)))
                 } else {
-                    (de_f64(&doc, false), de_f64(&doc, true))
+                    (de_f64(&doc, false), de_f64(&doc_on, true))
                 };
+                let what = if *radians { format!("{} (tagged !radians with the option on)", what) } else { what };
                 match (off, on) {
                     (Err(p), _) | (_, Err(p)) => v.fail("panic", format!("{}: {}", what, p)),
                     (Ok(Ok(a)), Ok(Ok(b))) => {
@@ -412,7 +415,7 @@ impl Prop for C19 {
     fn key(&self, c: &Case, clause: &str) -> String {
         match c {
             Case::Expr { ast, tag, sp, quoted, f32_target } => format!("{}|{}{}|{}|{}{}", clause, ["", "!degrees ", "!radians "][*tag as usize], ast.render(*sp), if *quoted { "quoted" } else { "plain" }, if *f32_target { "f32" } else { "f64" }, ""),
-            Case::Literal { text, f32_target } => format!("{}|literal {:?}|{}", clause, text, if *f32_target { "f32" } else { "f64" }),
+            Case::Literal { text, f32_target, radians } => format!("{}|literal {:?}|{}{}", clause, text, if *f32_target { "f32" } else { "f64" }, if *radians { "|!radians" } else { "" }),
             Case::Sexa { neg, d, m, s, tag } => format!("{}|sexagesimal neg={} {}:{}:{:?}|tag={}", clause, neg, d, m, s, tag),
             Case::SexaCtx { outer_deg, other, sexa } => format!("{}|{}({} + {})", clause, if *outer_deg { "deg" } else { "rad" }, SEXA_OTHERS[*other as usize], sexa),
             Case::Raw { text } => format!("{}|raw {:?}", clause, text.chars().take(40).collect::<String>()),
@@ -516,7 +519,9 @@ pub fn run(ctx: &Ctx) -> i32 {
     // (b) literals on vs off
     for t in literal_corpus(ctx.tier == Tier::Thorough) {
         for f32_target in [false, true] {
-            cases.push(Case::Literal { text: t.clone(), f32_target });
+            for radians in [false, true] {
+                cases.push(Case::Literal { text: t.clone(), f32_target, radians });
+            }
         }
     }
     let mut acc = run_list(&p, &cases);
